@@ -71,6 +71,28 @@ def fam_gssv(g, prop, count, types, nmax=8):
     return out
 
 
+def fam_gssv_big(g, prop, count, types, nlo=9, nhi=18):
+    """larger systems with wide supernodes and small row/column block sizes: the 2-D blocked update paths of
+    ?panel_bmod / ?column_bmod (supernodes of >= colblk columns with more than rowblk rows, U-segments that start
+    inside a supernode) are not reachable with orders <= 8"""
+    out = {}
+    for ty, k in split_types(count, types).items():
+        cplx = is_cplx(ty)
+        lst = []
+        for i in range(k):
+            r = g.r
+            n = r.randint(nlo, nhi)
+            if r.random() < 0.6:
+                A = g.lu_product(n, cplx)
+            else:
+                A, _ = g.matrix(n, n, cplx, style=r.choice(["pow2", "small", "int"]), kind=r.choice(["dense", "block", "band", "arrow"]))
+            panel = r.randint(1, 6); relax = r.randint(1, 4); maxsuper = r.randint(max(relax, 5), n)
+            tune = [panel, relax, maxsuper, r.randint(1, 3), r.randint(1, 3), r.choice([1, 2, 30]), r.randint(1, 6)]
+            lst.append(lu_scenario(g, "%s-gssvbig-%05d-%s" % (prop, i, ty), ty, n, A=A, tune=tune, colperm=r.choice([NATURAL, NATURAL, COLAMD, MMD_AT_PLUS_A])))
+        out[ty] = lst
+    return out
+
+
 def fam_gstrf(g, prop, count, types, nmax=7):
     """factor routine called directly: square and tall matrices, caller-supplied perm_c"""
     out = {}
@@ -350,7 +372,8 @@ def fam_gssvx(g, prop, count, types, nmax=7, spread=8):
             fmt = g.r.choice(["NC", "NR"])
             B = g.rhs_for(A, n, nrhs, cplx, op=o["Trans"] if (cplx or o["Trans"] != 2) else 1)
             ldb = n + g.r.choice([0, 2])
-            lines = ["tune " + " ".join(map(str, g.tune()))] + g.mat_lines(A, n, n, fmt, cplx) + g.rhs_lines(B, n, nrhs, ldb, cplx) + opt_lines(o)
+            ldx = n + g.r.choice([0, 0, 1, 3])            # B and X need not share a leading dimension
+            lines = ["tune " + " ".join(map(str, g.tune()))] + g.mat_lines(A, n, n, fmt, cplx) + g.rhs_lines(B, n, nrhs, ldb, cplx, ldx=ldx) + opt_lines(o)
             lines += gssvx_block(work=None, events=0) + ["destroy all", "ledger"]
             # complex data, row storage, conjugate transpose: kept in a family of its own (known finding, DESIGN 9.15)
             fam = "gssvxNRconj" if (cplx and fmt == "NR" and o["Trans"] == 2) else "gssvx"
@@ -995,3 +1018,131 @@ def repeat_scenario(g, sid, ty):
     lines = ["use 0"] + a["lines"] + ["use 1"] + b["lines"] + (["use 3"] + mt_scenario(g, sid, ty)["lines"] if r.random() < 0.5 else []) + ["use 2", "mark repeat"] + a["lines"]
     # the mark must precede the *last* call of the repeated block only: a block has 1..3 calls; compare the first of them
     return {"id": sid, "lines": lines, "n": a["n"]}
+
+
+# ----------------------------------------------------------------------------- families added after seeded changes were missed
+def fam_symrelax(g, prop, count, types):
+    """SymmetricMode = YES (heap_relax_snode, no postorder) with relax 4..12 on random sparse patterns of order 6..20:
+    relaxed supernodes must be complete, contiguous subtrees of a tree that is NOT postordered"""
+    out = {}
+    for ty, k in split_types(count, types).items():
+        cplx = is_cplx(ty)
+        lst = []
+        for i in range(k):
+            r = g.r
+            n = r.randint(6, 16)
+            dens = r.uniform(0.05, 0.3)
+            P = {(a, a) for a in range(n)} | {(a, b) for a in range(n) for b in range(n) if r.random() < dens}
+            if r.random() < 0.5:
+                P |= {(b, a) for (a, b) in P}
+            A = {kk: ((8.0 if kk[0] == kk[1] else float(r.choice([1, -1, 0.5, 2]))), 0.0) for kk in P}
+            relax = r.choice([4, 6, 8, 10, 10, 12])
+            tune = [r.randint(1, 4), relax, r.randint(relax, 14), r.randint(1, 4), r.randint(1, 3), r.choice([1, 2, 30]), r.randint(1, 6)]
+            cp = r.choice([NATURAL, NATURAL, MY_PERMC, MMD_AT_PLUS_A])
+            lst.append(lu_scenario(g, "%s-symrelax-%05d-%s" % (prop, i, ty), ty, n, A=A, tune=tune, sym=1, colperm=cp, u=float(r.choice([1.0, 0.5, 0.125])), fn=r.choice(["gssv", "gstrf"])))
+        out[ty] = lst
+    return out
+
+
+def arrow_down(n, diag, border, cplx):
+    """diagonal + dense first column + dense last row: no fill when the diagonal entries are the pivots; when the
+    (0,0) entry is not, the dense last row becomes the first pivot row and the factors fill completely"""
+    A = {}
+    for a in range(n):
+        A[(a, a)] = (diag, 0.0)
+        A[(n - 1, a)] = (border, 0.0)
+        A[(a, 0)] = (border, 0.0)
+    A[(0, 0)] = (diag, 0.0)
+    A[(n - 1, n - 1)] = (4.0, 0.0)
+    return A
+
+
+def fam_histgrow(g, prop, count, types):
+    """reuse of ordering + row pivots + storage where the new values abandon the remembered pivots and create fill the
+    inherited arrays cannot hold (they must grow, and move, during the reuse call); then re-solves"""
+    out = {}
+    for ty, k in split_types(count, types).items():
+        cplx = is_cplx(ty)
+        lst = []
+        for i in range(k):
+            r = g.r
+            n = r.randint(7, 10)
+            A1 = arrow_down(n, 4.0, 1.0, cplx)
+            A2 = arrow_down(n, 2.0 ** -r.randint(4, 12), float(r.choice([1, 2, -1])), cplx)
+            # a few extra entries so that patterns differ between scenarios
+            for _ in range(r.randint(0, 3)):
+                kk = (r.randrange(n), r.randrange(n))
+                if kk not in A1:
+                    A1[kk] = (0.5, 0.0); A2[kk] = (1.0, 0.0)
+            fmt = "NC"
+            tune = [r.randint(1, 3), r.randint(1, 2), r.randint(1, 3), r.randint(1, 3), r.randint(1, 3), 1, 2]
+            o = {"default": 0, "ColPerm": NATURAL, "Equil": 0, "u": 1.0, "IterRefine": r.choice([0, 1]), "Trans": r.choice([0, 1])}
+            B = g.rhs_for(A1, n, 1, cplx)
+            user = r.random() < 0.4
+            est = query_estimate(n, n, len(A1), tune[0], 1, DWORD[ty])
+            wk = (8 * est + 8000, r.choice([0, 4])) if user else None
+            lines = ["tune " + " ".join(map(str, tune))] + g.mat_lines(A1, n, n, fmt, cplx) + g.rhs_lines(B, n, 1, n, cplx) + opt_lines(o)
+            lines += gssvx_block(work=wk, events=3)
+            lines += ["requireok", "newvals " + g.mat_lines(A2, n, n, fmt, cplx)[3]] + g.rhs_lines(g.rhs_for(A2, n, 1, cplx), n, 1, n, cplx) + opt_lines({"Fact": 2})
+            lines += gssvx_block(work=wk, events=3)
+            for _ in range(r.randint(1, 2)):
+                lines += ["requireok"] + g.rhs_lines(g.rhs_for(A2, n, 1, cplx), n, 1, n, cplx) + opt_lines({"Fact": 3, "Trans": r.choice([0, 1])}) + gssvx_block(work=wk, events=0)
+            lines += ["destroy LUauto", "destroy all", "ledger"]
+            lst.append({"id": "%s-histgrow%s-%05d-%s" % (prop, "user" if user else "", i, ty), "lines": lines, "n": n})
+        out[ty] = lst
+    return out
+
+
+def fam_storage_dense(g, prop, count, types):
+    """C07 with dense-ish matrices, fill estimate 1 and narrow supernodes: U outgrows its array several times and every
+    U column has many segments, so UCOL / USUB / LSUB move in the middle of a column (caller workspace and malloc)"""
+    out = {}
+    for ty, k in split_types(count, types).items():
+        cplx = is_cplx(ty)
+        lst = []
+        for i in range(k):
+            r = g.r
+            n = r.randint(5, 10)
+            if r.random() < 0.5:
+                A = arrow_matrix(n, cplx)
+                for _ in range(r.randint(0, n)):
+                    A[(r.randrange(n), r.randrange(n))] = (float(r.choice([1, -1, 2, 0.5])), 0.0)
+            else:
+                A, _ = g.matrix(n, n, cplx, style=r.choice(["pow2", "small"]), kind="dense")
+            tune = [r.randint(1, 3), 1, r.randint(1, 2), r.randint(1, 3), r.randint(1, 3), 30, 2]
+            colperm = NATURAL
+            B = g.rhs_for(A, n, 1, cplx)
+            opts = {"default": 0, "ColPerm": colperm, "Equil": 0, "u": float(r.choice([1.0, 0.5]))}
+            lines = ["tune " + " ".join(map(str, tune))] + g.mat_lines(A, n, n, "NC", cplx) + g.rhs_lines(B, n, 1, n, cplx) + opt_lines(opts)
+            lines += gssvx_block(work=None, events=3)
+            t2 = list(tune); t2[5] = 1
+            big = 40 * query_estimate(n, n, n * n, tune[0], 1, DWORD[ty])
+            for wk in (None, (big, 0), (big + 4 * r.randint(0, 5), 4), (big // 2, r.choice([0, 4]))):
+                lines += ["destroy LUauto", "tune " + " ".join(map(str, t2))] + g.rhs_lines(B, n, 1, n, cplx)
+                lines += gssvx_block(work=wk, events=3)
+            lines += ["destroy LUauto"]
+            lst.append({"id": "%s-storagedense-%05d-%s" % (prop, i, ty), "lines": lines, "n": n})
+        out[ty] = lst
+    return out
+
+
+def fam_sweep_reuse(g, prop, ty, specs, step=4):
+    """factor with an ample caller workspace, then refactor with SamePattern_SameRowPerm passing the SAME buffer with
+    every shorter length (one scenario per length): a length that no longer holds the factors plus the work arrays must be
+    reported as info > n; nothing beyond work+lwork may be written"""
+    out = []
+    cplx = is_cplx(ty)
+    for mi, (n, fill) in enumerate(specs):
+        A = sweep_matrix(g, ty, n)
+        tune = g.tune(); tune[5] = fill
+        B = g.rhs_for(A, n, 1, cplx)
+        est = query_estimate(n, n, len(A), tune[0], fill, DWORD[ty])
+        big = 2 * est + 2000
+        head = ["tune " + " ".join(map(str, tune))] + g.mat_lines(A, n, n, "NC", cplx) + g.rhs_lines(B, n, 1, n, cplx) + opt_lines({"default": 0, "ColPerm": g.r.choice([NATURAL, COLAMD]), "Equil": 0})
+        A2 = {k: (v[0] * 2, v[1] * 2) for k, v in A.items()}
+        for al in (0, 4):
+            for lw in range(step, big + step, step):
+                lines = list(head) + gssvx_block(work=(big, al), events=0) + ["requireok", "newvals " + g.mat_lines(A2, n, n, "NC", cplx)[3]] + g.rhs_lines(B, n, 1, n, cplx)
+                lines += opt_lines({"Fact": 2}) + ["relwork %d" % lw, "events 3", "call gssvx"]
+                out.append({"id": "%s-sweepreuse-m%02df%da%d-%05d-%s" % (prop, mi, fill, al, lw, ty), "lines": lines, "n": n})
+    return out
